@@ -443,9 +443,39 @@ Proof.
   destruct H as (H1 & H2 & H3). repeat split; assumption.
 Qed.
 
+(* create_candidate_clusters: after the final loop a protocluster points at the LAST returned candidate that lists it *)
+Lemma lget_point_all : forall (rs : list (Z * list Z)) m x c, lget x (fold_left l_point rs m) = Some c ->
+  (exists ch, In (c, ch) rs /\ In x ch) \/ (lget x m = Some c /\ forall r, In r rs -> ~ In x (snd r)).
+Proof.
+  induction rs as [|[c0 ch0] rs IH]; intros m x c Hr; cbn [fold_left] in Hr; [right; split; [exact Hr|intros r []]|].
+  destruct (IH _ _ _ Hr) as [(ch & Hin & Hx)|(Hm & Hno)]; [left; exists ch; split; [right; exact Hin|exact Hx]|].
+  unfold l_point in Hm. cbn [fst snd] in Hm. rewrite lget_set_all in Hm. destruct (existsb (Z.eqb x) ch0) eqn:E.
+  - inversion Hm; subst. left. exists ch0. split; [left; reflexivity|apply existsb_eqb_In; exact E].
+  - right. split; [exact Hm|]. intros r [<-|Hin]; [cbn [snd]; intros Hx; apply existsb_eqb_In in Hx; congruence|apply Hno; exact Hin].
+Qed.
+
+Lemma l_cover_spec built returned : l_cover built returned = true ->
+  forall b x, In b built -> In x (snd b) -> exists r, In r returned /\ In x (snd r).
+Proof.
+  unfold l_cover. intros H b x Hb Hx. rewrite forallb_forall in H. specialize (H b Hb). rewrite forallb_forall in H.
+  specialize (H x Hx). apply existsb_exists in H. destruct H as (r & Hr & Hin). exists r. split; [exact Hr|apply existsb_eqb_In; exact Hin].
+Qed.
+
+Lemma linv_form built returned st : linv st -> linv (l_form true built returned st).
+Proof.
+  intros (H1 & H2 & H3). unfold l_form. destruct (l_cover built returned) eqn:Hc; [|repeat split; assumption].
+  repeat split; cbn [l_pparent l_aparent l_cdsreg l_cands l_regions]; [|exact H2|exact H3].
+  intros x c Hr. destruct (lget_point_all _ _ _ _ Hr) as [(ch & Hin & Hx)|(Hm & Hno)].
+  - exists ch. split; [apply in_or_app; left; apply -> in_rev; exact Hin|exact Hx].
+  - destruct (lget_point_all _ _ _ _ Hm) as [(ch & Hin & Hx)|(Hm' & _)].
+    + exfalso. destruct (l_cover_spec _ _ Hc (c, ch) x Hin Hx) as (r & Hr' & Hxr). exact (Hno r Hr' Hxr).
+    + destruct (H1 x c Hm') as (ch & Hin & Hx). exists ch. split; [apply in_or_app; right; exact Hin|exact Hx].
+Qed.
+
 Lemma linv_apply st o : linv st -> linv (l_apply st o).
 Proof.
-  intros H. destruct o as [p|c ch|s|gs| |gs|gs|gs|c ch|gl]; cbn [l_apply].
+  intros H. destruct o as [built returned|p|c ch|s|gs| |gs|gs|gs|c ch|gl]; cbn [l_apply].
+  - apply linv_form; exact H.
   - destruct H as (H1 & H2 & H3). repeat split; assumption.
   - destruct H as (H1 & H2 & H3). repeat split; cbn [l_pparent l_aparent l_cdsreg l_cands l_regions]; [|exact H2|exact H3].
     intros x c'. rewrite lget_set_all. destruct (existsb (Z.eqb x) ch) eqn:E.
@@ -489,6 +519,17 @@ Proof.
   - intros p c Hr. destruct (H1 p c Hr) as (ch & Hin & _). apply in_map_iff. exists (c, ch). split; [reflexivity|exact Hin].
   - intros a r Hr. destruct (H2 a r Hr) as (reg & Hin & Hid & _). apply in_map_iff. exists reg. split; assumption.
   - intros g r Hr. destruct (H3 g r Hr) as (reg & Hin & Hid & _). apply in_map_iff. exists reg. split; assumption.
+Qed.
+
+(* create_candidate_clusters before repair e5074b2a (no final loop): the members of a candidate that was built last
+   and then dropped as redundant keep pointing at it (hybrid 200 = {100, 101}, interleaved 201 = {100, 102, 101},
+   neighbouring 202 = the same members at the same coordinates, dropped) *)
+Lemma form_without_relink_stale : exists built returned p c,
+  let st := l_form false built returned (fold_left l_apply [LAddProto 100; LAddProto 101; LAddProto 102] l_empty) in
+  l_cover built returned = true /\ lget p (l_pparent st) = Some c /\ ~ In c (map fst (l_cands st)).
+Proof.
+  exists [(200, [100; 101]); (201, [100; 102; 101]); (202, [100; 101; 102])], [(201, [100; 102; 101]); (200, [100; 101])], 100, 202.
+  vm_compute. repeat split; try reflexivity. intros [H|[H|[]]]; discriminate.
 Qed.
 
 (* add_region on ANY record, origin-spanning regions included: refused iff a base is shared *)
